@@ -846,7 +846,8 @@ class World(object):
         for i, a in enumerate(conn.addrs):
             fam = _real_socket.AF_INET6 if a.get('family') == 'inet6' \
                 else _real_socket.AF_INET
-            sa = ('10.0.%d.%d' % (self.conn_index % 250, i + 1), port)
+            # the same name resolves to the same addresses every time
+            sa = ('10.0.0.%d' % (i + 1), port)
             res.append((fam, _real_socket.SOCK_STREAM, 6, '', sa))
         return res
 
@@ -873,6 +874,17 @@ class World(object):
     def connect(self, st, sa):
         spec = st.addr_spec
         st.addr = sa
+        # what an address does is a property of the address, not of the
+        # order in which the client creates its sockets
+        try:
+            k = int(str(sa[0]).rsplit('.', 1)[1]) - 1
+        except (ValueError, IndexError):
+            k = None
+        if k is not None and str(sa[0]).startswith('10.0.0.') and \
+                0 <= k < len(st.conn.addrs) and k != st.addr_index:
+            spec = st.conn.addrs[k]
+            st.addr_index = k
+            st.addr_spec = spec
         how = spec.get('connect', 'ok')
         if how == 'refused':
             self.fired('connect_refused')
